@@ -390,21 +390,116 @@ def x4(prog: Program, chk: Check) -> None:
 
 
 # --------------------------------------------------------------------- X5
+CONTRACTIONS = ("dot", "matmul", "tensordot", "einsum")
+
+
 def _transform_events(u: Unit):
     g = CFG(u.node, exc_edges=False)
     ev = {}
     for n in g.nodes:
-        for c in n.calls():
-            fn = dotted(c.func) or ""
-            if fn.endswith("create_delta"):
+        for x in n.walk():
+            if isinstance(x, ast.Call) and (dotted(x.func) or "").endswith("create_delta"):
                 ev[n.id] = "DELTA"
-            elif fn.split(".")[-1] in ("dot", "matmul", "tensordot") and \
-                    any("_transform_in" in norm(a) for a in c.args):
+            is_contr = (isinstance(x, ast.Call)
+                        and (dotted(x.func) or "").split(".")[-1] in CONTRACTIONS) or \
+                (isinstance(x, ast.BinOp) and isinstance(x.op, ast.MatMult))
+            if is_contr and "_transform_in" in norm(x):
                 ev[n.id] = "TIN"
-            elif fn.split(".")[-1] in ("dot", "matmul", "tensordot") and \
-                    any("_transform_out" in norm(a) for a in c.args):
+            elif is_contr and "_transform_out" in norm(x):
                 ev[n.id] = "TOUT"
     return g, ev
+
+
+EXPECTED_TRANSFORMED = ((("T", 0), ("T", 1), ("Min", 0), ("Mout", 1)),
+                        ((("Min", 1), ("T", 2)), (("Mout", 0), ("T", 3))))
+RAW = ((("T", 0), ("T", 1), ("T", 2), ("T", 3)), ())
+
+
+def transform_signatures(u: Unit, transformed: bool):
+    """Index signatures (tensoridx.Val.signature) of what get_mpo_tensor returns on every
+    feasible path with both transforms present and `transformed` as given.  The stored tensor
+    is the atom T (rank 4 after the delta expansion), the transforms are Min / Mout."""
+    from oqv import tensoridx as ti
+    g = CFG(u.node, exc_edges=False)
+    du = DefUse(u, g)
+    flag = u.params[2]
+
+    def lookup(nid, e):
+        if isinstance(e, ast.Name) and e.id == flag:
+            return transformed
+        if isinstance(e, ast.Compare) and len(e.ops) == 1 and isinstance(e.left, ast.Name) \
+                and e.left.id == flag and isinstance(e.comparators[0], ast.Constant) \
+                and isinstance(e.comparators[0].value, bool):
+            same = e.comparators[0].value == transformed
+            return same if isinstance(e.ops[0], (ast.Is, ast.Eq)) else (not same)
+        if isinstance(e, ast.Compare) and len(e.ops) == 1 \
+                and dotted(e.left) in ("self._transform_in", "self._transform_out") \
+                and isinstance(e.comparators[0], ast.Constant) and e.comparators[0].value is None:
+            return isinstance(e.ops[0], (ast.IsNot, ast.NotEq))
+        return ae.UNKNOWN
+    feas = ae.feasible_edges(g, lookup)
+    sigs = []
+    # a hand-written memo (self._m[key] = value ... return self._m[key]) is transparent here;
+    # that its entries are keyed completely and dropped by the setters is C03 M5 / C20 A7, A7b
+    memo_attrs = {dotted(t.value) for st in walk_local(u.node) if isinstance(st, ast.Assign)
+                  for t in st.targets if isinstance(t, ast.Subscript)
+                  and (dotted(t.value) or "").startswith("self.")}
+    for path in _paths(g):
+        if any(not feas(path[i][0], path[i + 1][0], path[i + 1][1]) for i in range(len(path) - 1)):
+            continue
+        if any(g.nodes[nid].kind == "stmt" and isinstance(g.nodes[nid].ast, ast.Raise)
+               for (nid, _) in path):
+            continue
+        env = {}
+
+        def atom(x):
+            d = dotted(x)
+            if d == "self._transform_in":
+                return ti.Val.atom("Min", 2)
+            if d == "self._transform_out":
+                return ti.Val.atom("Mout", 2)
+            if isinstance(x, ast.Name) and x.id in env:
+                return env[x.id]
+            if isinstance(x, ast.Call) and (dotted(x.func) or "").endswith("create_delta") \
+                    and x.args:
+                return ti.evaluate(x.args[0], atom)      # rank-3 -> rank-4 expansion of T
+            if isinstance(x, ast.Subscript) and dotted(x.value) == "self._mpo_tensors":
+                return ti.Val.atom("T", 4)
+            if isinstance(x, ast.Call) and call_name(x) == "_get_data_and_shape":
+                return ti.Val.atom("T", 4)
+            return None
+        result = "no return"
+        for (nid, _) in path:
+            n = g.nodes[nid]
+            if n.kind != "stmt":
+                continue
+            if isinstance(n.ast, ast.Assign) and len(n.ast.targets) == 1 \
+                    and isinstance(n.ast.targets[0], ast.Name):
+                env[n.ast.targets[0].id] = ti.evaluate(n.ast.value, atom)
+            if isinstance(n.ast, ast.Return) and n.ast.value is not None:
+                rv = n.ast.value
+                if isinstance(rv, ast.Subscript) and dotted(rv.value) in memo_attrs:
+                    result = "memo hit"       # served from a memo filled by a miss path
+                    continue
+                v = ti.evaluate(rv, atom)
+                result = v.signature() if v is not None else None
+        if result != "memo hit":
+            sigs.append(result)
+    return sigs
+
+
+def _canon_locals(u: Unit, e: ast.AST) -> str:
+    """Text of e with every function-local variable (assigned in u, not a parameter) written
+    as `T`: the two siblings may call their working tensor differently."""
+    import copy
+    assigned = {y.id for st in walk_local(u.node) for y in ast.walk(st)
+                if isinstance(y, ast.Name) and isinstance(y.ctx, ast.Store)}
+    local = assigned - set(u.params)
+
+    class T(ast.NodeTransformer):
+        def visit_Name(self, n):
+            return ast.copy_location(ast.Name(id="T" if n.id in local else n.id, ctx=n.ctx), n)
+    return norm(T().visit(copy.deepcopy(e)))
 
 
 def x5(prog: Program, chk: Check) -> None:
@@ -442,19 +537,17 @@ def x5(prog: Program, chk: Check) -> None:
         p = g.find_path([g.entry], lambda x: ev.get(x) in ("TIN", "TOUT"), edge_ok=feas)
         chk.add("X5", u, f"{pname}=False applies no transform", p is None,
                 "" if p is None else "a transform is applied although transformed is False")
-        # operand forms
-        forms = []
-        for n in g.nodes:
-            if ev.get(n.id) in ("TIN", "TOUT"):
-                for c in n.calls():
-                    if (dotted(c.func) or "").split(".")[-1] in ("dot", "matmul", "tensordot"):
-                        forms.append((ev[n.id], norm(c)))
-        sig[cq] = sorted(forms)
-    u = prog.unit(f"{PT}:FileProcessTensor.get_mpo_tensor")
-    chk.add("X5", u, "sibling agreement of transform expressions",
-            sig["SimpleProcessTensor"] == sig["FileProcessTensor"],
-            "" if sig["SimpleProcessTensor"] == sig["FileProcessTensor"] else
-            f"Simple: {sig['SimpleProcessTensor']} vs File: {sig['FileProcessTensor']}")
+        # what is returned, as an index contraction (spelling-independent)
+        for flag_value, want, what in ((True, EXPECTED_TRANSFORMED,
+                                        "M_in[k,i] T[a,b,i,j] M_out[j,l] -> [a,b,k,l]"),
+                                       (False, RAW, "the stored tensor itself")):
+            sigs = transform_signatures(u, flag_value)
+            ok = bool(sigs) and all(sg == want for sg in sigs)
+            bad_sig = next((sg for sg in sigs if sg != want), None)
+            chk.add("X5", u, f"{pname}={flag_value}: returns {what}", ok,
+                    f"{len(sigs)} path(s)" if ok else
+                    f"a path returns {bad_sig}: the transform acts on the wrong leg / with the "
+                    f"wrong orientation (or the expression is outside the index calculus)")
     im = prog.unit(f"{PT}:import_process_tensor")
     for c in walk_local(im.node):
         if isinstance(c, ast.Call) and method_call(c) and method_call(c)[1] == "get_mpo_tensor":
@@ -563,10 +656,10 @@ def run(prog: Program, chk: Check) -> None:
                        "identical downstream numerical results.")
     chk.assumptions = ["h5py: create_dataset(key, ...) / file[key] address the same object",
                        "np.array(None) is a NaN scalar, not None"]
-    x1(prog, chk)
-    x2(prog, chk)
-    x3(prog, chk)
-    x4(prog, chk)
-    x5(prog, chk)
-    x6(prog, chk)
-    x7(prog, chk)
+    chk.call(x1, prog, chk)
+    chk.call(x2, prog, chk)
+    chk.call(x3, prog, chk)
+    chk.call(x4, prog, chk)
+    chk.call(x5, prog, chk)
+    chk.call(x6, prog, chk)
+    chk.call(x7, prog, chk)
